@@ -28,7 +28,13 @@ def explore(run: Callable[[PathState], Any], max_paths=200000, check_timeout_ms=
     work: List[List[int]] = [list(p) for p in (initial if initial is not None else [[]])]
     outcomes: List[PathOutcome] = []
     n = 0
+    t_start = time.time()
+    max_seconds = float(os.environ.get("PYVC_EXPLORE_SECONDS", "400"))
     while work:
+        if stop_when_frontier is None and budget is None and time.time() - t_start > max_seconds:
+            # an exploration that does not come to an end (a loop over the heap without an invariant forks at
+            # every step) is a tool limit: undecided, never a hang
+            raise OutOfSubset(f"exploration exceeded {int(max_seconds)} s after {n} paths (unbounded walk over the heap without an invariant?)")
         if stop_when_frontier is not None and len(work) >= stop_when_frontier:
             return outcomes, work
         if budget is not None and n >= budget:
